@@ -116,7 +116,7 @@ def Contract (a : Alg) (ps : List Int) (B : Box) : Prop :=
       let m := (ps.length - 1) / 2
       ps.length = 2 * m + 1 ∧ 1 ≤ m ∧ 1 ≤ B.length ∧ B.within (getI ps 0) (getI ps 0 + m - 1) ∧
       ∀ j, j < m → 0 ≤ getI ps (1 + j) ∧ getI ps (1 + j) ≤ getI ps (1 + m + j)
-  | .lexLeq => 2 ≤ B.length ∧ B.length % 2 = 0
+  | .lexLeq => 2 ≤ B.length
   | .maxEq | .maxLeq | .minEq | .minGeq => 2 ≤ B.length
   | .noSubCycle | .scc => 1 ≤ B.length ∧ B.within 0 ((B.length : Int) - 1)
   | .relation => 1 ≤ B.length ∧ 1 ≤ ps.length ∧ ps.length % B.length = 0
